@@ -9,7 +9,7 @@ set -u
 PROP=$1; PATCH=$(readlink -f "$2"); shift 2
 mkdir -p /verif/.build
 exec 9>/dev/null
-while :; do
+while [ -z "${GV_SEEDTEST_NOSLOT:-}" ]; do
   for s in 1 2 3; do
     exec 9>"/verif/.build/seedtest.slot$s"
     if flock -n 9; then break 2; fi
